@@ -86,6 +86,7 @@ type flags struct {
 	strictW, strictR, lenient bool
 	truncCode                 int
 	truncTag                  string
+	clientEOF                 bool // D10 present
 }
 
 func (f flags) cfgLine(cs, maxMsg int) string {
@@ -95,7 +96,7 @@ func (f flags) cfgLine(cs, maxMsg int) string {
 		}
 		return 0
 	}
-	return fmt.Sprintf("cfg %d %d %d %d %d %d %s", cs, maxMsg, b(f.strictW), b(f.strictR), b(f.lenient), f.truncCode, f.truncTag)
+	return fmt.Sprintf("cfg %d %d %d %d %d %d %s %d", cs, maxMsg, b(f.strictW), b(f.strictR), b(f.lenient), f.truncCode, f.truncTag, b(f.clientEOF))
 }
 
 // step is one executed script line: what the real code replied and what it did to the backends.
